@@ -29,10 +29,40 @@ func (c obCase) full() []*Term {
 
 func withDerived(pc []*Term, cands []*Term, goal *Term) []*Term {
 	inst := instancesOfGoal(pc, cands, goal)
+	if known := knownFacts(pc); len(known) > 0 {
+		// instances and hypotheses are read under the literals the path establishes (so are goals, in addOb)
+		for i, t := range inst {
+			if u := Subst(t, known); !u.IsTrue() {
+				inst[i] = u
+			}
+		}
+		derived := derivedFacts
+		pc2 := make([]*Term, len(pc))
+		for i, t := range pc {
+			if u := Subst(t, known); !u.IsTrue() && !hasQuant(t) {
+				if os.Getenv("GOVC_DEBUG") == "4" && u != t {
+					fmt.Fprintf(os.Stderr, "   rewrite: %s\n        => %s\n", truncate(t.String(), 300), truncate(u.String(), 300))
+				}
+				pc2[i] = u
+			} else {
+				pc2[i] = t
+			}
+		}
+		// literals that came out of implications are restated: the implications no longer say them
+		pc = append(pc2, derived...)
+	}
 	out := append(append([]*Term(nil), pc...), inst...)
 	unf := unfoldings(append(append([]*Term{}, out...), goal))
 	if os.Getenv("GOVC_DEBUG") != "" {
 		fmt.Fprintf(os.Stderr, "withDerived: raw=%d inst=%d unf=%d cands=%d\n", len(pc), len(inst), len(unf), len(cands))
+		if os.Getenv("GOVC_DEBUG") == "2" {
+			for _, c := range cands {
+				fmt.Fprintf(os.Stderr, "   cand: %s\n", truncate(c.String(), 120))
+			}
+			for _, t := range inst {
+				fmt.Fprintf(os.Stderr, "   inst: %s\n", truncate(t.String(), 400))
+			}
+		}
 	}
 	return append(out, unf...)
 }
@@ -189,6 +219,13 @@ func (v *Verifier) addOb(name, kind, clause string, st *State, goal *Term, cover
 		}
 	}
 	cands := append(append([]*Term(nil), st.idx...), sks...)
+	if !cover {
+		goal = underFacts(st.pc, goal)
+		if goal.IsTrue() {
+			ob.NTriv++
+			return
+		}
+	}
 	// "last element" split: a skolem constant bounded by  sk < x + 1  is considered separately
 	// below x (the part the hypothesis already covers) and at x (the new element)
 	if kind == "inv" || kind == "post" {
@@ -217,6 +254,63 @@ func (v *Verifier) addOb(name, kind, clause string, st *State, goal *Term, cover
 					}
 				}
 			}
+		}
+	}
+	// "this very key" split: a skolem key that some hypothesis compares with a particular key X (the key of the
+	// current map iteration, typically) is considered separately as X itself and as any other key
+	if kind == "inv" || kind == "post" {
+		for _, sk := range sks {
+			if sk.Op != "var" || !strings.HasPrefix(sk.Str, "sk_") || sk.Sort == SInt || sk.Sort == SBool {
+				continue
+			}
+			var X *Term
+			var find func(t *Term)
+			seenT := map[*Term]bool{}
+			find = func(t *Term) {
+				if X != nil || seenT[t] {
+					return
+				}
+				seenT[t] = true
+				if t.Op == "=" && len(t.Args) == 2 {
+					for side := 0; side < 2; side++ {
+						if t.Args[side] == sk && !t.Args[1-side].open && !mentions(t.Args[1-side], sk) && t.Args[1-side].Op == "var" {
+							X = t.Args[1-side]
+							return
+						}
+					}
+				}
+				for _, a := range t.Args {
+					find(a)
+				}
+			}
+			for _, h := range st.pc {
+				find(h)
+			}
+			if X == nil {
+				// the key of a running iteration over a map of unknown contents
+				best := 0
+				for _, it := range st.iters {
+					if it.curKey != nil && it.curKey.Sort == sk.Sort && it.seq > best {
+						X, best = it.curKey, it.seq
+					}
+				}
+			}
+			if X == nil {
+				continue
+			}
+			a := st.clone()
+			a.assume(Not(Eq(sk, X)))
+			ob.Cases = append(ob.Cases, obCase{pc: append([]*Term(nil), a.pc...), goal: goal, cut: st.lastCut, cands: cands})
+			m := map[*Term]*Term{sk: X}
+			var pcB []*Term
+			for _, t := range st.pc {
+				if u := Subst(t, m); !u.IsTrue() {
+					pcB = append(pcB, u)
+				}
+			}
+			candsB := append(append([]*Term(nil), cands...), X)
+			ob.Cases = append(ob.Cases, obCase{pc: pcB, goal: underFacts(pcB, Subst(goal, m)), cut: st.lastCut, cands: candsB})
+			return
 		}
 	}
 	ob.Cases = append(ob.Cases, obCase{pc: append([]*Term(nil), st.pc...), goal: goal, cut: st.lastCut, cands: cands})
@@ -487,6 +581,9 @@ func (v *Verifier) jump(st *State, b *ssa.BasicBlock) bool {
 	}
 	for i, p := range phis {
 		st.env[p] = vals[i]
+		if p.Comment != "" && !strings.HasPrefix(p.Comment, "&&") && !strings.HasPrefix(p.Comment, "||") && p.Comment != "rangeindex" {
+			fr.named = setNamed(fr.named, p.Comment, vals[i], p.Type())
+		}
 	}
 	li := v.loopsOf(fr.fn)
 	ord, isHeader := li.headers[b.Index]
@@ -521,8 +618,26 @@ func (v *Verifier) jump(st *State, b *ssa.BasicBlock) bool {
 			f := Fresh(fr.fn.Name()+"_"+p.Comment+"_"+p.Name(), sortOf(p.Type()))
 			st.env[p] = f
 			ci.phis[p] = f
+			if p.Comment != "" && !strings.HasPrefix(p.Comment, "&&") && !strings.HasPrefix(p.Comment, "||") && p.Comment != "rangeindex" {
+				fr.named = setNamed(fr.named, p.Comment, f, p.Type())
+			}
 			for _, t := range typeInv(f, p.Type(), 0) {
 				st.assume(t)
+			}
+		}
+		// a map iteration of unknown contents starts over from an arbitrary set of keys already handed out
+		for _, hin := range b.Instrs {
+			if nx, ok := hin.(*ssa.Next); ok {
+				if rg, ok := nx.Iter.(*ssa.Range); ok {
+					if it := st.iters[rg]; it != nil && it.visited != nil {
+						ks := it.msort.Fields[0].Sort.Key
+						it.visited = Fresh("mapseen", ArraySort(ks, SBool))
+						it.curKey = nil
+						mo := Select(st.getHeap(it.msort), it.mapRef)
+						j := BVar("k$seen", ks)
+						st.assume(Forall([]*Term{j}, Implies(Select(it.visited, j), Select(Sel(mo, 0), j))))
+					}
+				}
 			}
 		}
 		// heap havoc
@@ -885,7 +1000,8 @@ func (v *Verifier) step(st *State, instr ssa.Instruction) bool {
 				{
 					if t, ok := st.env[in.X]; ok {
 						fr.named = setNamed(fr.named, obj.Name(), t, in.X.Type())
-					} else if c, ok := in.X.(*ssa.Const); ok {
+					} else if c, ok := in.X.(*ssa.Const); ok && !(c.Value == nil && isMapType(c.Type())) {
+						// (the definition of a variable initialised with a map literal is reported as a nil constant)
 						fr.named = setNamed(fr.named, obj.Name(), constTerm(c), c.Type())
 					}
 				}
@@ -1446,9 +1562,14 @@ func (v *Verifier) rangeInit(st *State, in *ssa.Range) {
 	o := Select(st.getHeap(ms), x)
 	es, ok := mapKnown[o]
 	it.mapRef = x
+	it.msort = ms
 	if ok {
 		it.known = true
 		it.entries = es
+	} else {
+		it.visited = ConstArr(ArraySort(ms.Fields[0].Sort.Key, SBool), TFalse)
+		iterSeq++
+		it.seq = iterSeq
 	}
 	st.iters[in] = it
 	st.env[in] = IntLit(0)
@@ -1458,8 +1579,13 @@ func (v *Verifier) next(st *State, in *ssa.Next) bool {
 	rng := in.Iter.(*ssa.Range)
 	it := st.iters[rng]
 	tup := in.Type().(*types.Tuple)
-	kz := zeroTerm(sortOf(tup.At(1).Type()))
-	vz := zeroTerm(sortOf(tup.At(2).Type()))
+	kT, vT := tup.At(1).Type(), tup.At(2).Type()
+	if mt, ok := rng.X.Type().Underlying().(*types.Map); ok {
+		// a discarded key or value has no type in the tuple: take the map's
+		kT, vT = mt.Key(), mt.Elem()
+	}
+	kz := zeroTerm(sortOf(kT))
+	vz := zeroTerm(sortOf(vT))
 	if in.IsString {
 		rs := []rune(it.str.Str)
 		if it.pos < len(rs) {
@@ -1470,6 +1596,25 @@ func (v *Verifier) next(st *State, in *ssa.Next) bool {
 		} else {
 			st.env[in] = mkTuple(TFalse, kz, vz)
 		}
+		return true
+	}
+	if !it.known && !st.initMod && it.visited != nil {
+		// a map of unknown contents: some key not handed out before, or none left - in an order nobody fixes.
+		// (The loop needs invariants; they may speak of rangeseen(k) and rangekey().)
+		mo := Select(st.getHeap(it.msort), it.mapRef)
+		dom, val := Sel(mo, 0), Sel(mo, 1)
+		ks := it.msort.Fields[0].Sort.Key
+		k := Fresh("mapkey", ks)
+		more := Fresh("mapmore", SBool)
+		for _, c := range typeInv(k, kT, 0) {
+			st.assume(Implies(more, c))
+		}
+		st.assume(Implies(more, And(Select(dom, k), Not(Select(it.visited, k)))))
+		j := BVar("k$rng", ks)
+		st.assume(Implies(Not(more), Forall([]*Term{j}, Implies(Select(dom, j), Select(it.visited, j)))))
+		it.curKey = k
+		it.visited = Ite(more, Store(it.visited, k, TTrue), it.visited)
+		st.env[in] = mkTuple(more, k, Select(val, k))
 		return true
 	}
 	if !it.known {
@@ -1602,3 +1747,75 @@ func realDiv(x, y *Term) *Term {
 	}
 	return App("real_div", SReal, x, y)
 }
+
+func isMapType(T types.Type) bool {
+	_, ok := T.Underlying().(*types.Map)
+	return ok
+}
+
+// underFacts rewrites t using the literals the path establishes outright: an atom that is itself a hypothesis
+// (or the consequent of an implication whose antecedent is one) is replaced by true inside t, a negated one by false.
+// Equivalent under the hypotheses; it lets  ite(dom[k], a, b)  collapse where dom[k] is known.
+func underFacts(pc []*Term, t *Term) *Term {
+	known := knownFacts(pc)
+	if len(known) == 0 {
+		return t
+	}
+	return Subst(t, known)
+}
+
+// derivedFacts: the literals knownFacts took from consequents of implications (they must be restated when the
+// implications themselves are rewritten under the known facts).
+var derivedFacts []*Term
+
+func knownFacts(pc []*Term) map[*Term]*Term {
+	known := map[*Term]*Term{}
+	derivedFacts = nil
+	if os.Getenv("GOVC_NO_FACTS") != "" {
+		return known
+	}
+	inRound := false
+	var add func(x *Term)
+	add = func(x *Term) {
+		switch x.Op {
+		case "and":
+			// literals inside a conjunction are restated too: rewriting the conjunction would erase them
+			was := inRound
+			inRound = true
+			for _, a := range x.Args {
+				add(a)
+			}
+			inRound = was
+		case "not":
+			if a := x.Args[0]; a.Op != "and" && a.Op != "or" && a.Op != "=>" && a.Op != "forall" && a.Op != "exists" && !a.open {
+				if _, dup := known[a]; !dup && inRound {
+					derivedFacts = append(derivedFacts, x)
+				}
+				known[a] = TFalse
+			}
+		case "or", "=>", "forall", "exists", "ite", "true", "false":
+		default:
+			if x.Sort == SBool && !x.open {
+				if _, dup := known[x]; !dup && inRound {
+					derivedFacts = append(derivedFacts, x)
+				}
+				known[x] = TTrue
+			}
+		}
+	}
+	for _, h := range pc {
+		add(h)
+	}
+	inRound = true
+	for round := 0; round < 2; round++ {
+		for _, h := range pc {
+			if h.Op == "=>" {
+				if a := Subst(h.Args[0], known); a.IsTrue() {
+					add(h.Args[1])
+				}
+			}
+		}
+	}
+	return known
+}
+
